@@ -11,28 +11,29 @@ open MoreExec.PyMap
 
 /-- **The code is the model**: running the regenerated `_delegate_resolved` (and, for flat_map, running it again for the future
 the user function returned) ends with exactly the result, the `fn` calls and the `error_fn` calls of `resolve`, and no exception
-escapes from either call. -/
-theorem C13_code_is_model (c : Cfg) (d : Outcome) :
-    toRes (runCode c d).1 = some (resolve c d) ∧ (runCode c d).2 = false :=
-  run_eq_resolve c d
+escapes from either call - whether the returned future is already done when it is returned (`sync`: the second call is
+nested in the first one's `_set_delegate`, with `self` in whatever state `_on_mapped` has left it by then) or finishes later. -/
+theorem C13_code_is_model (c : Cfg) (sync : Bool) (d : Outcome) :
+    toRes (runCode c sync d).1 = some (resolve c d) ∧ (runCode c sync d).2 = false :=
+  run_eq_resolve c sync d
 
 /-- **The code meets the property's reading** (`spec` is written independently of the code's structure). -/
-theorem C13_code_meets_spec (c : Cfg) (d : Outcome) :
-    (toRes (runCode c d).1).map (·.out) = some (spec c d) := by
-  rw [(run_eq_resolve c d).1]; simp [C13_spec]
+theorem C13_code_meets_spec (c : Cfg) (sync : Bool) (d : Outcome) :
+    (toRes (runCode c sync d).1).map (·.out) = some (spec c d) := by
+  rw [(run_eq_resolve c sync d).1]; simp [C13_spec]
 
 /-- **Each user function is called at most once by the code, only for its own case, with the input's own value / exception**
 (also when the future returned to flat_map fails afterwards: `error_fn` is not consulted for that failure). -/
-theorem C13_code_calls (c : Cfg) (d : Outcome) :
-    ∃ r, toRes (runCode c d).1 = some r ∧
+theorem C13_code_calls (c : Cfg) (sync : Bool) (d : Outcome) :
+    ∃ r, toRes (runCode c sync d).1 = some r ∧
       r.fnCalls = (match d, c.fn with | .ok v, some _ => [v] | _, _ => []) ∧
       r.errCalls = (match d, c.errFn with | .err e, some _ => [e] | _, _ => []) :=
-  ⟨resolve c d, (run_eq_resolve c d).1, C13_calls c d⟩
+  ⟨resolve c d, (run_eq_resolve c sync d).1, C13_calls c d⟩
 
 /-! Non-vacuity: the generated programs really run user code (flat_map, fn returns a future that fails; error_fn is not consulted
 for that failure). -/
-example : toRes (runCode ⟨true, some (fun v => .retFut (.err (v + 1))), some (fun _ => .ret 0)⟩ (.ok 5)).1 =
+example : toRes (runCode ⟨true, some (fun v => .retFut (.err (v + 1))), some (fun _ => .ret 0)⟩ true (.ok 5)).1 =
     some { out := .err 6, fnCalls := [5], errCalls := [] } := by
-  rw [(run_eq_resolve _ _).1]; decide
+  rw [(run_eq_resolve _ _ _).1]; decide
 
 end MoreExec.MapFut
